@@ -954,10 +954,16 @@ def run(tier, seed):
         cov = _extra(r, cases, obs)
         from . import c14init      # several pools over one vips directory: initialize() of one and the owners of another
         cov.update(c14init.stage(r, seed, 300 if tier == 'quick' else 8000))
-        from . import c14frame     # the real resource-service framework: start-up replay, inotify loop, real client
-        cov.update(c14frame.stage(r, seed, 150 if tier == 'quick' else 2500))
-        from . import svcframe     # the framework as a producer of service schedules: Node/SvcFrame.v, Props/C14Frame.v
-        u = svcframe.stage(r, seed, tier)
+        import gc
+        gc.collect()
+        gc.freeze()                # the observations of the main stage stay out of the collections the next stages force
+        try:
+            from . import c14frame     # the real resource-service framework: start-up replay, inotify loop, real client
+            cov.update(c14frame.stage(r, seed, 150 if tier == 'quick' else 2500))
+            from . import svcframe     # the framework as a producer of service schedules: Node/SvcFrame.v, Props/C14Frame.v
+            u = svcframe.stage(r, seed, tier)
+        finally:
+            gc.unfreeze()
         cov['extra_obligations'] = cov.get('extra_obligations', 0) + u.pop('svcframe_obligations', 0)
         cov.update(u)
         return cov
